@@ -19,7 +19,7 @@ def bases(rng, n, tier):
     out = [("fixture:scx", dict(SC.fixtures())["test/resources/test-chkjson-scx.chk"])]
     for k in range(n):
         out.append((f"synthetic:{k}", SC.MapGen(random.Random(rng.randrange(10 ** 9)), "editor", nloc=255,
-                                                all_sections=(k % 3 != 2)).build()))
+                                                all_sections=(k % 3 != 2), shuffle_order=(k % 4 == 1)).build()))
     return out
 
 
@@ -131,6 +131,9 @@ def c04_oracle(base, spec, out, keys=None):
                     row = {a: (c, f) for a, c, en, f in tables[kind][k]["args"]}
                     for name, v in args:
                         c, f = row[name]
+                        if v[0] == 8 and spec["pool"]["switches"][v[1]][1] is not None and spec["pool"]["switches"][v[1]][0] is None:
+                            # an authored switch that carries a number and no name IS a reference to switch number k
+                            v = [9, spec["pool"]["switches"][v[1]][1]]
                         if v[0] in (2, 8):
                             # one authored object (a pool entry) is ONE slot, however many triggers, added in however many
                             # steps, refer to it
